@@ -195,3 +195,26 @@ Proof.
 Qed.
 
 End EvalP.
+
+(* ---------- empty results: an extent 0 (e.g. an empty slice) ---------- *)
+Lemma lex_enum_empty s : Forall (fun n => 0 <= n) s -> prod s = 0 -> lex_enum s = [].
+Proof.
+  induction 1 as [|n t Hn Ht IH]; cbn [prod lex_enum]; intros Hp.
+  - discriminate.
+  - destruct (Z.eq_dec n 0) as [->|Hn0].
+    + reflexivity.
+    + assert (Ht0 : prod t = 0) by nia.
+      rewrite (IH Ht0). induction (zrange n) as [|x xs IHx]; cbn; auto.
+Qed.
+
+Lemma eval_empty {A} (v : view A) L (d : A) init :
+  Forall (fun n => 0 <= n) (vshape v) -> prod (vshape v) = 0 ->
+  let r := eval_default v (fun _ s => fresh L d s) init in
+  ashape r = vshape v /\ abuf r = [] /\ spec_buffer RowMajor v = [].
+Proof.
+  intros Hn Hp r. unfold r, eval_default, eval_into, fresh; cbn [ashape alayout abuf].
+  assert (E : list_eqb (vshape v) (vshape v) = true) by (apply list_eqb_eq; reflexivity).
+  rewrite E; cbn [ashape abuf]. split; [reflexivity|]. split.
+  - unfold eval_loop, ndindex_size. rewrite product_eq_prod, Hp. reflexivity.
+  - unfold spec_buffer. now rewrite (lex_enum_empty _ Hn Hp).
+Qed.
